@@ -298,6 +298,39 @@ PROBES = {   # minimal stimuli: the first two meet exactly the trigger of the kn
 }
 
 
+_FH = ("from Reduino.Actuators import Led, Servo, Buzzer, RGBLed\nfrom Reduino.Sensors import Button, Potentiometer\n"
+       "from Reduino.Communication import SerialMonitor\nfrom Reduino.Utils import sleep\nmon = SerialMonitor(9600)\n")
+_SWAP_LOOP = "pa = 1\npb = 2\nwhile True:\n    pa, pb = pb, pa\n    mon.write(pa)\n    sleep(10)\n"
+_SWAP_FN = "def rot(u, v, w):\n    u, v, w = v, w, u\n    return u * 100 + v * 10 + w\n"
+_SWAP_FOR = "qa = 1\nqb = 2\nfor gi in range(3):\n    qa, qb = qb, qa + qb\n"
+
+FEATURES = {
+    # state-bearing constructs (numbered temporaries, helper variants, device tables) in accepted scripts ...
+    "feat-swap-loop": _FH + _SWAP_LOOP,
+    "feat-swap-fn": _FH + _SWAP_FN + "mon.write(rot(1, 2, 3))\nwhile True:\n    mon.write(rot(4, 5, 6))\n    sleep(5)\n",
+    "feat-swap-for": _FH + _SWAP_FOR + "mon.write(qa)\n",
+    "feat-swap-many": _FH + _SWAP_FN + _SWAP_FOR + "def rev(a, b):\n    a, b = b, a\n    return a - b\n" + _SWAP_LOOP.replace("mon.write(pa)", "mon.write(rev(pa, qa) + rot(pa, pb, qb))"),
+    # ... and the same constructs in scripts that are rejected late, after the construct was processed
+    "rej-swap-then-break": _FH + _SWAP_FOR + "break\n",
+    "rej-swap-fn-then-melody": _FH + _SWAP_FN + "bz = Buzzer(8)\nmon.write(rot(1, 2, 3))\nbz.melody(\"no-such-tune\")\n",
+    "rej-swap-loop-then-align": _FH + "from Reduino.Displays import LCD\nlcd = LCD(i2c_addr=0x27)\npa = 1\npb = 2\nfor gi in range(2):\n    pa, pb = pb, pa\nled = Led(13)\nbtn = Button(2)\nxs = [1, 2]\nxs.append(3)\nlcd.line(0, \"x\", align=\"diagonal\")\n",
+    "rej-conflict-after-defs": _FH + _SWAP_FN + _SWAP_FOR + "def bad(n):\n    if n > 1:\n        return \"a\"\n    return 1\nmon.write(bad(2))\n",
+    # type merging: places where several candidate types meet (returns, list elements, conditional expressions, call sites)
+    "merge-ret-lists": _FH + "def pick(flag):\n    if flag > 0:\n        return [1, 2, 3]\n    return [1.5, 2.5, 3.5]\nvals = pick(1)\nmon.write(vals[0])\n",
+    "merge-ret-num": _FH + "def half(n):\n    if n > 10:\n        return n\n    if n > 5:\n        return n / 2\n    return True\nmon.write(half(3))\nmon.write(half(30))\n",
+    "rej-ret-str-num": _FH + "def label(n):\n    if n > 1:\n        return \"many\"\n    if n == 1:\n        return 1\n    return 0.5\nmon.write(label(2))\n",
+    "merge-list-elems": _FH + "xs = [1, 2.5, 3]\nys = [True, 2]\nzs = [\"a\", \"b\"]\nws = [[1, 2], [3, 4]]\nmon.write(xs[1])\nmon.write(ys[0])\nmon.write(zs[1])\n",
+    "merge-ternary": _FH + "pot = Potentiometer(\"A0\")\nlv = pot.read()\nva = 1 if lv > 5 else 2.5\nvb = \"hi\" if lv > 5 else \"lo\"\nvc = True if lv > 5 else 0\nmon.write(va)\nmon.write(vb)\nmon.write(vc)\n",
+    "merge-call-sites": _FH + "def twice(x):\n    return x * 2\ndef mix(a, b):\n    return a + b\nmon.write(twice(3))\nmon.write(twice(1.5))\nmon.write(mix(1, 2))\nmon.write(mix(1.5, 2))\nmon.write(mix(1, 2.5))\nmon.write(mix(twice(2), twice(0.5)))\n",
+    "merge-many-devices": _FH + "la = Led(3)\nlb = Led(4)\nlc = Led(5)\nsa = Servo(9)\nsb = Servo(10)\nra = RGBLed(6, 7, 8)\nba = Button(11)\nbb = Button(12)\nbz = Buzzer(2)\nwhile True:\n    la.toggle()\n    lb.on()\n    lc.off()\n    sa.write(10)\n    sb.write(20)\n    ra.set_color(1, 2, 3)\n    bz.beep(440, 5, 5, 2)\n    mon.write(ba.is_pressed())\n    mon.write(bb.is_pressed())\n",
+}
+EXPECT_REJECT = {k for k in FEATURES if k.startswith("rej-")}
+FEATURE_GROUPS = [["feat-swap-loop", "rej-swap-then-break", "feat-swap-for"], ["feat-swap-fn", "rej-swap-fn-then-melody", "feat-swap-many"],
+                  ["feat-swap-many", "rej-swap-loop-then-align", "feat-swap-loop"], ["feat-swap-for", "rej-conflict-after-defs", "feat-swap-fn"],
+                  ["merge-ret-lists", "merge-ret-num", "rej-ret-str-num"], ["merge-list-elems", "merge-ternary", "merge-call-sites"],
+                  ["merge-many-devices", "merge-ret-lists", "rej-swap-then-break"]]
+
+
 def _twin(src: str, rng: random.Random) -> str | None:
     """Same script with one digit of one integer literal changed (same length, same names, same line count)."""
     spots = [m for m in re.finditer(r"(?<![\w.])([1-8])(?![\w.])", src) if "range(" not in src[max(0, m.start() - 6):m.start()]]
@@ -326,6 +359,8 @@ def corpus(seed: int, n_trigger: int = 30, n_clean: int = 10, n_twins: int = 8) 
             out.append({"id": f"{e['id']}t", "src": t, "twin_of": e["id"]})
             k += 1
     for pid, src in PROBES.items():
+        out.append({"id": pid, "src": src, "twin_of": None})
+    for pid, src in FEATURES.items():
         out.append({"id": pid, "src": src, "twin_of": None})
     for e in out:
         groups = promotion_groups(e["src"])
